@@ -115,14 +115,22 @@ def run_history(fx, slog, rl, rec, r, retries, ncalls, script, sername, hh):
     CE = P.errors.CommunicationError
     pay = {"script": script, "retries": retries, "ncalls": ncalls, "serializer": sername, "servertype": fx.servertype, "seed_kinds": None}
     rl.set_script(script)
+    # the two knobs for the retry budget: the process-wide config.MAX_RETRIES (read when a proxy is made) and the documented per-proxy
+    # override _pyroMaxRetries. A third of the histories use the global knob alone; the others override it per proxy while the global
+    # knob says something ELSE (the override is what counts, also when it is 0)
+    knob = getattr(r, "knob", None) or r.choice(["global", "override", "override"])
+    glob = retries if knob == "global" else (getattr(r, "glob", None) if getattr(r, "glob", None) is not None else r.choice([g for g in (0, 1, 2, 3) if g != retries]))
+    pay["knob"], pay["global_retries"] = knob, glob
+    rec.count("retry_knob:" + knob)
+    P.config.MAX_RETRIES = glob
     p = P.client.Proxy("PYRO:svc@127.0.0.1:%d" % rl.port)
     p._pyroSerializer = sername
     p._pyroTimeout = 5.0           # the first connect gets a generous timeout (a slow handshake on a loaded machine is not a verdict) ...
-    p._pyroMaxRetries = retries
+    if knob == "override":
+        p._pyroMaxRetries = retries
     p._pyroBind()
     p._pyroTimeout = 0.15          # ... the calls a short one, so that lost replies surface quickly
     p._pyroSeq = 0xFFF0
-    p._pyroMaxRetries = retries
     tokens = []
     kinds = []
     nonces = []
@@ -408,6 +416,7 @@ def replay(payload, rec):
         class FixedR:
             def __init__(self):
                 self.i = 0
+                self.knob, self.glob = payload.get("knob"), payload.get("global_retries")
 
             def choice(self, seq):
                 if seq is KINDS and self.i < len(kinds):
